@@ -1,6 +1,7 @@
 import Operon.Lemmas.C01
 import Operon.Lemmas.C01Work
 import Operon.Lemmas.C01Reach
+import Operon.Lemmas.MitoBox
 import Operon.Gen.MitoFacts
 /-!
 # C01 — the safe evaluator is confined to its allow-list, total, and resource-bounded
@@ -407,6 +408,52 @@ theorem c01_print_outside_try_raises_witness :
         fun _ _ _ => .error ""⟩ ⟨10000, false, false, [], none, false, true, true⟩ false .glycolysis
         ⟨8, none, none, true⟩ none).2 = .raised := by
   rfl
+
+/-! ### … through the result containers (what the CALLER sees: `Model/MitoBox.lean`)
+
+Every result — the refusals at the guards, the failure built inside the handler, the success — is an instance of the
+`MetabolicResult` dataclass (a success additionally wraps its value in `ATP`).  Building it is part of "never raises to
+the caller": a `__post_init__` that validates a range (error level above 1, efficiency outside [0, 1]) would raise out of
+the handler itself.  E1 re-establishes on every run that building results never raises (`Gen.box.builds`: 45 rounds of
+failures on engines with a large `max_ros`, tiny / huge timeouts, a latched engine, direct construction over a grid). -/
+
+/-- `metabolize` as the caller sees it never raises, for every input / pathway / environment / table content, when the
+    print and the dispatch sit inside the handler AND building a result cannot fail. -/
+theorem c01_total_delivered (T : Tables) (env : Env) (cfg : Cfg) (box : Box) (hp : cfg.printInTry = true)
+    (hd : cfg.dispatchInTry = true) (hb : box.builds = true) (latched : Bool) (d : Pathway) (inp : Inp)
+    (forced : Option Pathway) :
+    (metabolizeD T env cfg box latched d inp forced).2 ≠ .raised := by
+  obtain ⟨s, v, r, p, h⟩ := c01_total T env cfg hp hd latched d inp forced
+  unfold metabolizeD
+  simp only [h]
+  intro hr
+  rcases (deliver_raised box _).1 hr with h1 | h1
+  · exact nomatch h1
+  · rw [hb] at h1; exact nomatch h1
+
+/-- The current source: handler placement and container facts as extracted (E1). -/
+theorem c01_never_raises_current_source_delivered (T : Tables) (env : Env) (cfg : Cfg)
+    (hp : cfg.printInTry = Gen.printInTry) (hd : cfg.dispatchInTry = Gen.dispatchInTry) (latched : Bool) (d : Pathway)
+    (inp : Inp) (forced : Option Pathway) :
+    (metabolizeD T env cfg Gen.box latched d inp forced).2 ≠ .raised :=
+  c01_total_delivered T env cfg Gen.box (by rw [hp]; decide) (by rw [hd]; decide) (by decide) latched d inp forced
+
+/-- The containers add nothing to what is executed: the interactions of `metabolize` as the caller sees it are those of
+    the engine (so every confinement theorem above speaks about the delivered call as well). -/
+theorem c01_delivery_executes_nothing (T : Tables) (env : Env) (cfg : Cfg) (box : Box) (latched : Bool) (d : Pathway)
+    (inp : Inp) (forced : Option Pathway) :
+    (metabolizeD T env cfg box latched d inp forced).1 = (metabolize T env cfg latched d inp forced).1 := rfl
+
+/-- A result container whose construction may fail is expressible and does raise — even on an input that the length
+    guard refuses (the shape of a range validation added to `MetabolicResult.__post_init__`). -/
+theorem c01_container_validation_raises_witness :
+    (metabolizeD ⟨[], [], [], [], []⟩ ⟨fun _ => .h 0, fun _ _ => .error "", fun _ => .error "", fun _ _ _ => .error "",
+        fun _ _ _ => .error ""⟩ ⟨10000, true, false, [], none, true, true, true⟩ ⟨true, true, false⟩ false .glycolysis
+        ⟨10001, none, none, false⟩ none).2 = .raised := by
+  rfl
+
+/-- `c01_total_delivered`: the container facts of the current source -/
+example : Gen.box.builds = true := by decide
 
 /-! ### Resource clause -/
 
